@@ -46,7 +46,7 @@ def cases(tier, rng, run):
             c2 = relib(c, libs)
             out.append(Case(c2.ctx_line(), "ctx", {"group": (gi, "ctx"), "ctx": c2}))
             if gi % 3 == 0:
-                out.append(Case(c2.call_line("func", "pos"), "call", {"group": (gi, "call"), "ctx": c2}))
+                out.append(Case(c2.call_line("func", ["pos", "kw", "kwonly", "posonly"][gi % 4], omit=(gi // 4) % 3), "call", {"group": (gi, "call"), "ctx": c2}))
     return out
 
 
